@@ -17,6 +17,7 @@ import (
 
 type Config struct {
 	NoRaces      bool  // disable happens-before race detection in schedule harnesses
+	AllRaces     bool  // happens-before race detection from the start of every path (also sequential harnesses with background goroutines)
 	MaxSteps     int64 // per path
 	MaxDecisions int   // per path
 	MaxPaths     int   // per harness
@@ -509,6 +510,9 @@ func (ex *explorer) runOne(solver *Solver, item workItem) {
 	main := &thread{id: 0, wake: make(chan struct{}, 1), i: i, name: "main"}
 	i.threads = []*thread{main}
 	i.cur = main
+	if ex.cfg.AllRaces && !ex.cfg.NoRaces {
+		i.raceInit()
+	}
 
 	status := "ok"
 	func() {
